@@ -12,6 +12,12 @@ NOTE_COMMON = ("Trusted base: go/packages + go/types type-check of /repo's worki
 
 # id -> (technique, level text, level note, design ref)
 CLAIMS = {
+    "C09": (
+        "sibling-agreement and key-derivation analysis of the LevelDB store's methods (constant-prefix identity, byte-order object identity, def-use of database keys), facts at the error-mapping returns, shape of the index scans, interval-convention check at every GetBulkIterator call site",
+        "Partial: decides key-space separation between log entries and stable-store keys, agreement of the four stable-store methods and of the log writers, the error contract (raft.ErrLogNotFound, zero value for missing keys, index 0 only for an empty log), "
+        "and the half-open interval convention at the iterator and every caller (inclusive bound + 1; DeleteRange covers [min,max] and deletes every key). Equality with an in-memory model over all operation sequences and reopen points is behavioural and not decided.",
+        NOTE_COMMON,
+        "DESIGN.md section 3, C09"),
     "C18": (
         "per-site field-correspondence analysis of every hand-written copy between robust.Message/pb.RobustMessage and raft.Log/pb.RaftLog (like-named source field, completeness per literal/block, nested id components), enum-constant agreement from go/types constants, framing rule over every proto.Marshal/Unmarshal site, script extraction and item-by-item comparison of the output batch writer and reader including cursor increments and the symbolic size pre-computation",
         "Structural completeness and agreement (same kind as C03): decides that no encoder/decoder copy in the module forgets or swaps a field, that enum numbers agree, that the id default is guarded by the zero test, "
